@@ -108,13 +108,16 @@ theorem genCode_addr (s : FuncSt) (p : W64) : (s.genCode p).addr = s.addr := by
   unfold FuncSt.genCode; split <;> simp [redirectTo_addr]
 
 theorem genBB_addr (s : FuncSt) (p : W64) : (s.genBB p).addr = s.addr := by
-  simp [FuncSt.genBB, redirectTo_addr]
+  unfold FuncSt.genBB
+  split <;> simp [redirectTo_addr]
 
 theorem genCode_kind (s : FuncSt) (p a : W64) (h : s.addr = some a) : (s.genCode p).kind = .code := by
   unfold FuncSt.genCode; split <;> simp [redirectTo_some s _ _ a h]
 
-theorem genBB_kind (s : FuncSt) (p a : W64) (h : s.addr = some a) : (s.genBB p).kind = .bbThunk := by
-  simp [FuncSt.genBB, redirectTo_some s _ _ a h]
+theorem genBB_kind (s : FuncSt) (p a : W64) (h : s.addr = some a) :
+    (s.genBB p).kind = .bbThunk ∨ (s.genBB p).kind = .code := by
+  unfold FuncSt.genBB
+  split <;> simp [redirectTo_some s _ _ a h]
 
 theorem setIface_addr (s : FuncSt) (i : Iface) (p : W64) : (s.setIface i p).addr = s.addr := by
   cases i <;> simp [FuncSt.setIface, redirectTo_addr, genCode_addr]
